@@ -64,9 +64,28 @@ pub fn ov_value_ref<'q, 'v>(_w: &'v LogWriter<'q>, table: ValueTableId, index: u
 /// enum; constants read through it — markers, next pointers — are no longer constants for symbolic execution and
 /// every chain-walk loop then unwinds to the bound.)
 pub struct OvView;
+/// Index pages visible to OvView: up to 3 (table id, page number, page) triples.
+pub const VP: usize = 3;
+pub static mut VP_USED: [bool; VP] = [false; VP];
+pub static mut VP_TABLE: [u16; VP] = [0; VP];
+pub static mut VP_AT: [u64; VP] = [0; VP];
+pub static mut VP_PAGE: [IndexChunk; VP] = [IndexChunk([0u8; 512]), IndexChunk([0u8; 512]), IndexChunk([0u8; 512])];
+pub fn view_reset_pages() { unsafe { let mut k = 0; while k < VP { VP_USED[k] = false; k += 1; } } }
+pub fn view_set_page(slot: usize, table: IndexTableId, at: u64, page: IndexChunk) {
+	unsafe { VP_USED[slot] = true; VP_TABLE[slot] = table.as_u16(); VP_AT[slot] = at; VP_PAGE[slot] = page; }
+}
 impl LogQuery for OvView {
 	type ValueRef<'a> = &'a [u8];
-	fn with_index<R, F: FnOnce(&IndexChunk) -> R>(&self, _table: IndexTableId, _index: u64, _f: F) -> Option<R> { None }
+	fn with_index<R, F: FnOnce(&IndexChunk) -> R>(&self, table: IndexTableId, index: u64, f: F) -> Option<R> {
+		unsafe {
+			let mut k = 0;
+			while k < VP {
+				if VP_USED[k] && VP_TABLE[k] == table.as_u16() && VP_AT[k] == index { return Some(f(&VP_PAGE[k])) }
+				k += 1;
+			}
+		}
+		None
+	}
 	fn value(&self, table: ValueTableId, index: u64, dest: &mut [u8]) -> bool {
 		let t = table.size_tier() as usize;
 		let i = index as usize;
